@@ -615,9 +615,29 @@ func (g *gen) oracleUploads(in reqIn, s sentReq) {
 		return
 	}
 	by := map[string][]int64{}
+	announced := map[string]int64{}
 	for _, u := range s.Ups {
 		k := u.Param + "\x00" + u.Name
 		by[k] = append(by[k], u.Up)
+		if u.Size != 0 {
+			announced[k] = u.Size
+		}
+	}
+	// a total the LIBRARY works out (file by path, positioned seekable reader ...) must be the size of the
+	// content supplied - the rest of a reader from where it stood, not its whole extent; totals the caller
+	// declares himself (FileUpload.FileSize) are his business
+	dupKey := map[string]int{}
+	for _, f := range in.Files {
+		dupKey[f.Param+"\x00"+f.Name]++
+	}
+	for _, f := range in.Files {
+		if f.Kind == "upload" || dupKey[f.Param+"\x00"+f.Name] > 1 {
+			continue
+		}
+		if a, ok := announced[f.Param+"\x00"+f.Name]; ok && a != int64(len(f.Content)) {
+			g.r.Fail(hk.Failure{Sig: "upload-progress:announced-total:" + f.Kind, What: "the total announced to the upload callback (UploadInfo.FileSize) is not the size of the content supplied", Input: in, Got: a, Want: len(f.Content)})
+			return
+		}
 	}
 	seen := map[string]bool{}
 	for i, f := range in.Files {
